@@ -14,6 +14,8 @@ def r1(ctx, thorough):
               KINDS="{1, 2, 3, 4, 7}", MAXRUNS=2, PROPS="PROPERTIES Termination ReInitIsInit")),
         ("NT=2 eval limit, converger, recorder error", dict(NT=2, MAXSENDS=5, FLIMIT=2, ILIMIT=0, CAUSES='{"converge","recerr"}', PROPS="PROPERTIES Termination")),
         ("NT=2 iteration limit, MethodDone, Problem.Status", dict(NT=2, MAXSENDS=5, FLIMIT=0, ILIMIT=1, CAUSES='{"mdone","probstatus"}', PROPS="PROPERTIES Termination")),
+        ("NT=2 runtime limit elapsed at every major iteration, iteration limit, recorder error",
+         dict(NT=2, MAXSENDS=5, FLIMIT=0, ILIMIT=2, CAUSES='{"runtime","recerr","mdone"}', PROPS="PROPERTIES Termination")),
     ]
     if thorough:
         cfgs += [
@@ -101,6 +103,50 @@ def r3_reuse(ctx, thorough, binary, prop):
     if thorough:
         jobs = [(1, i, 6) for i in range(6)] + [(2, i, 6) for i in range(6)]
     ctx.parallel([lambda j=j: one(*j) for j in jobs], width=4)
+
+
+def r3_defaults(ctx, thorough, binary, prop):
+    """What Minimize does around the Method (harness/internal/optim/defaults.go): method == nil for every combination of
+    Problem fields (the runs come without the method's own log: silent method steps SMSend / SMRecv / SMClose of
+    MinimizeTrace.tla, clause DefaultChoiceOK), Settings.InitValues, invalid values at the start point (ErrFunc / ErrGrad),
+    FunctionNegativeInfinity, GradientThreshold, a lying gradient (the line search fails), a Converger of the caller,
+    and the calls Minimize has to refuse (AbortOK).  Part "ivunused" is a stage of its own with its own signature: a
+    gradient handed in as InitValues to a method that never asks for one."""
+    import os as _os
+    parts = ["main"]
+    if _os.environ.get("VERIF_C19_IVUNUSED", "1") != "0":
+        parts.append("ivunused")
+
+    def one(part):
+        tr = os.path.join(ctx.work, "min-defaults-%s.ndjson" % part)
+        args = ["defaults", "nt=1", "part=" + part] + (["thorough"] if thorough else [])
+        summ = ctx.record(binary, "minimize", tr, args, name="R3 record minimize, default method / InitValues / invalid start / refused calls [%s]" % part, timeout=1200)
+        if summ.get("traces", 0) == 0:
+            from vlib import Undecided
+            raise Undecided("no run was recorded (defaults, part %s)" % part)
+        if part == "main":
+            ex = summ.get("extra", {})
+            need = ["runs with method == nil", "runs with Settings.InitValues", "status Failure / error errfunc", "status Failure / error errgrad",
+                    "status Failure / error linesearch", "status FunctionNegativeInfinity / error none", "status GradientThreshold / error none",
+                    "calls Minimize had to refuse (uses)", "calls Minimize had to refuse (recinit)"]
+            missing = [k for k in need if not ex.get(k)]
+            if missing:
+                from vlib import Undecided
+                raise Undecided("defaults stage is vacuous: no run of kind %s" % missing)
+        ok, st = ctx.validate("optimize/MinimizeTrace.tla", "optimize/MinimizeTrace.cfg", tr, subst=dict(NT=1),
+                              name="R3 validate minimize, default method / InitValues / invalid start / refused calls [%s]" % part, dfs=True, timeout=1800)
+        if ok:
+            ctx.traces += summ.get("traces", 0)
+            ctx.cases += summ.get("traces", 0)
+            ctx.nontrivial += summ.get("traces", 0)
+        else:
+            keep = os.path.join(os.path.dirname(ctx.work), "..", "replays", prop)
+            os.makedirs(keep, exist_ok=True)
+            dst = os.path.abspath(os.path.join(keep, "minimize-defaults-%s-seed%d.ndjson" % (part, ctx.seed)))
+            shutil.copy(tr, dst)
+            ctx.violation("minimize:trace-rejected:defaults:%s" % part, _which_run(tr, st.get("detail", "")) + st.get("detail", "")[:1200],
+                          {"trace": dst, "spec": "optimize/MinimizeTrace.tla", "cfg": dict(NT=1)})
+    ctx.parallel([lambda part=part: one(part) for part in parts], width=2)
 
 
 def replay_trace(ctx, d, prop):
